@@ -174,6 +174,10 @@ func (w *World) runOp(t *simrt.Task, op *OpSpec, retry bool) *CallRec {
 	cr := &CallRec{Task: t.ID, Handle: op.H, Kind: op.Kind, Spec: op, Retry: retry}
 	t.OpIndex++
 	cr.Op = t.OpIndex
+	if op.Kind == OpRmLock {
+		t.Quiet(func() { w.operatorRemovesStaleLock() })
+		return nil
+	}
 	needOpen := op.Kind != OpOpen
 	if needOpen && !hs.Open {
 		return nil // handle not usable (never opened, closed, or open failed)
@@ -895,6 +899,24 @@ func (w *World) checkRetry(hs *HandleState, first, retry *CallRec) {
 	}
 	if nonEmpty > 0 && retry.Appends == 0 {
 		w.violate("C09", "retry-failed", "no-commit", "immediate retry returned success without committing")
+	}
+}
+
+// operatorRemovesStaleLock: tables.list.lock left behind by a process that
+// has crashed is removed by hand (outside the library: no event, no lock
+// tenure to judge).
+func (w *World) operatorRemovesStaleLock() {
+	p := filepath.Join(DBDir, "tables.list.lock")
+	o, has := w.owner[p]
+	if !has || o.Task < 0 || o.Task >= len(w.Sim.Tasks) || !w.Sim.Tasks[o.Task].Crashed {
+		return
+	}
+	if _, err := w.Sim.FS.Stat(p); err != nil {
+		return
+	}
+	if w.Sim.FS.Remove(p) == nil {
+		delete(w.owner, p)
+		w.probe("operator-removed-stale-lock")
 	}
 }
 
